@@ -19,6 +19,10 @@ CONSTANTS
   MaxNow = 8
   AllowClose = FALSE
   AllowCtx = FALSE
+  MaxCalls = 1
+  WFault = FALSE
+  TimeoutCarriesOver = FALSE
+  WriteErrKeepsEntry = FALSE
   MaxTry = 2
 INVARIANTS Schedule
 CHECK_DEADLOCK FALSE
